@@ -476,7 +476,7 @@ func cryptoStub(in *Interp, fn *ssa.Function, pkg, name string) StubFn {
 			return in.s.And(conj...)
 		}
 	}
-	if !isEccPkg(pkg) {
+	if !isEccPkg(pkg) && !isFieldPkg(pkg) {
 		return nil
 	}
 	// ---- MPC ceremony utilities: recorded predicate atoms -------------------------------
